@@ -84,7 +84,9 @@ func (u *decodeUnit) cycle(cycle int, app risc.Application) {
 			return
 		}
 		if runner.InstructionType() == risc.Ret {
+			// Nothing is decoded past a return
 			u.ret = true
+			return
 		}
 	}
 }
